@@ -152,8 +152,8 @@ def kw_from_json(j):
 # ------------------------------------------------------------------------------------------------
 # TLC configurations
 
-def cfg_url(maxlen, alphabet, export, checkprop, defects):
-    return ("INIT Init\nNEXT Next\nCHECK_DEADLOCK FALSE\n" + ("INVARIANT ThmInvariance\n" if checkprop else "") + "INVARIANT ThmNeverMisses\n"
+def cfg_url(maxlen, alphabet, export, checkprop, defects, inv=False):
+    return ("INIT Init\nNEXT Next\nCHECK_DEADLOCK FALSE\n" + ("INVARIANT ThmInvariance\n" if inv else "") + "INVARIANT ThmNeverMisses\n"
             "INVARIANT ThmDataType\nINVARIANT ThmExplained\nINVARIANT ThmExport\n"
             'CONSTANT MaxLen = %d\nCONSTANT Alphabet = "%s"\nCONSTANT Export = %s\nCONSTANT CheckProperty = %s\n'
             "CONSTANT KnownDefects = {%s}\n"
@@ -471,7 +471,7 @@ def build_sources(ctx):
     docs = list(corpus.repo_strings()) + default_list_docs()
     for _ in range(300 if q else 3000):
         docs.append(corpus.soup(rng))
-    for _ in range(1500 if q else 15000):
+    for _ in range(1500 if q else 10000):
         docs.append(adversarial_doc(rng))
     for i, d in enumerate(docs):
         out.append(("doc", {"treebuilder": "dom" if i % 2 else "etree", "fragment": i % 3 != 0, "namespaceHTMLElements": i % 5 != 4}, d))
@@ -483,17 +483,17 @@ def build_sources(ctx):
         add_piece("url-wide", URI_SLOTS[0], v)
     for v in seqs(URL_CORE, 4 if q else 5):
         add_piece("url-core", URI_SLOTS[2], v)
-    for i in range(12000 if q else 80000):
+    for i in range(12000 if q else 50000):
         if rng.random() < 0.45:
             v = "".join(rng.choice(URL_FRAGS) for _ in range(rng.randint(3, 6)))
         else:
             v = obfuscated(rng)
         add_piece("url-random", URI_SLOTS[i % len(URI_SLOTS)], v, 0.2 if i % 3 == 0 else 0.0)
     # (iii) CSS values
-    css = list(seqs(CSS_FRAGS[:35], 2 if q else 3))
-    for _ in range(4000 if q else 40000):
+    css = list(seqs(CSS_FRAGS[:35] if q else CSS_FRAGS, 2))
+    for _ in range(4000 if q else 25000):
         css.append("".join(rng.choice(CSS_FRAGS) for _ in range(rng.randint(3, 7 if q else 8))))
-    for _ in range(5000 if q else 40000):
+    for _ in range(5000 if q else 25000):
         css.append(structured_css(rng))
     for i, v in enumerate(css):
         add_piece("css", '<p style="%s">x</p>' if i % 4 else '<svg><rect style="%s" fill="url(#a)"></rect></svg>', v)
@@ -573,6 +573,8 @@ def run_traces(ctx, listed):
             reps = 2 if it[0] == "doc" else 1
             if it[0] in ("url-wide", "url-core", "css") and rng.random() < (0.5 if ctx.quick else 0.3):
                 reps = 0
+            if it[0] == "url-core" and not ctx.quick:
+                reps = 0
             for _ in range(reps):
                 per_cfg[rng.randrange(1, len(configs))].append(it)
         groups = [(ci, g[i:i + 60]) for ci, g in enumerate(per_cfg) for i in range(0, len(g), 60)]
@@ -619,21 +621,21 @@ def run(ctx):
     facts = pyre.platform_facts()
     if facts:
         raise tlc.TLCError("Python platform facts assumed by PyText.tla/UrlScheme.tla do not hold: %s" % facts[:5])
-    url_runs = [("wide", 3 if q else 4), ("narrow", 5 if q else 6), ("data", 4 if q else 5)]
+    url_runs = [("wide", 3 if q else 4), ("narrow", 5 if q else 6), ("data", 4)]
     san_runs = [("tok", 2 if q else 3), ("css", 3), ("ref", 4 if q else 5)] + ([] if q else [("csscore", 4)])
     ctx.constants = {"MC_UrlScheme (alphabet, max fragments)": url_runs, "MC_Sanitizer (mode, max attributes / fragments)": san_runs,
                      "KnownDefects(code-faithful)": listed,
                      "trace url values": "all sequences <= %d of 26 fragments on a[href]; all <= %d of 8 core fragments on svg a[xlink:href]; "
                                          "%d seeded random (fragment sequences 3-6 of 39 fragments, obfuscated schemes) over 22 attribute slots, 1/3 entity-encoded"
-                                         % ((2, 4, 12000) if q else (3, 5, 80000)),
-                     "trace css values": "all sequences <= %d of 35 fragments + %d seeded random sequences (3-%d of 66 fragments) + %d structured declaration lists (28 property names x 70 keyword-like values)"
-                                         % ((2, 4000, 7, 5000) if q else (3, 40000, 8, 40000))}
+                                         % ((2, 4, 12000) if q else (3, 5, 50000)),
+                     "trace css values": "all sequences <= 2 of %d fragments + %d seeded random sequences (3-%d of 66 fragments) + %d structured declaration lists (28 property names x 70 keyword-like values)"
+                                         % ((35, 4000, 7, 5000) if q else (66, 25000, 8, 25000))}
     ctx.rule = ("MC: every value / token / style in the bound, theorems on the intended model, code-faithful model replayed exactly. "
                 "traces: real Filter on walker streams of parsed inputs under default + 20 restricted allow-lists; "
                 "non-trivial = case whose filter output differs from its input")
     # ---- 1. intended configuration: the theorems
     for a, n in url_runs:
-        r = ctx.tlc("MC_UrlScheme", cfg_url(n, a, False, True, []), "mc-url-intended-" + a, expect_ok=False)
+        r = ctx.tlc("MC_UrlScheme", cfg_url(n, a, False, True, [], inv=True), "mc-url-intended-" + a, expect_ok=False)
         if r.violated or r.error:
             ctx.violation("theorem %s fails on the intended specification (MC_UrlScheme %s)" % (r.violated or r.error, a), {"tlc": r.stdout_path})
             return
